@@ -230,7 +230,7 @@ theorem decodeQuery_queryNode (q : Query) (h : Expressible q) (hlim : q.limit < 
   obtain ⟨allProp, props, ft, pfs, limit⟩ := q
   obtain ⟨hft, hpf⟩ := h
   simp only at hft hpf hlim
-  unfold queryNode decodeQuery
+  unfold queryNode decodeQuery dataReqOf filterOf
   simp only [el, beq_self_eq_true, Bool.and_self, Bool.not_true, Bool.false_eq_true, if_false, bind, Except.bind]
   generalize hcs : ([encPropReq allProp props, Node.elem ⟨nsCard, "filter"⟩ (atOpt "test" ft) (pfs.map propNode)] ++ encLimit limit) = cs
   have hlimitNodes : ∀ n ∈ encLimit limit, n.isElem nsDav "prop" = false ∧ n.localIs "filter" = false := by
